@@ -1,8 +1,13 @@
 use easy_error::{err_msg, Error, ResultExt};
-use tokio::io::{AsyncBufRead, AsyncBufReadExt, AsyncWrite, AsyncWriteExt};
+use tokio::io::{AsyncBufRead, AsyncBufReadExt, AsyncReadExt, AsyncWrite, AsyncWriteExt};
 use tracing::trace;
 
 type Reader<'a> = &'a mut (dyn AsyncBufRead + Send + Unpin);
+
+// A peer decides how long a line is and how many header lines it sends: without a bound a single connection
+// makes the proxy buffer until it runs out of memory (and an allocation failure aborts the process).
+const MAX_LINE: usize = 64 * 1024;
+const MAX_HEADERS: usize = 256;
 type Writer<'a> = &'a mut (dyn AsyncWrite + Send + Unpin);
 
 #[derive(Debug, PartialEq, Eq)]
@@ -177,15 +182,23 @@ async fn read_headers(
         let a = buf
             .split_once(": ")
             .ok_or_else(|| err_msg(format!("bad response: {:?}", buf)))?;
+        if headers.len() >= MAX_HEADERS {
+            return Err(err_msg("too many header lines"));
+        }
         headers.push((a.0.to_owned(), a.1.to_owned()))
     }
 }
 
 async fn read_line(s: Reader<'_>) -> Result<String, Error> {
     let mut buf = String::with_capacity(256);
-    let sz = s.read_line(&mut buf).await.context("readline")?;
+    let sz = s
+        .take(MAX_LINE as u64)
+        .read_line(&mut buf)
+        .await
+        .context("readline")?;
     match sz {
         0 => Err(err_msg("EOF")),
+        _ if sz >= MAX_LINE && !buf.ends_with('\n') => Err(err_msg("line too long")),
         // read_line also returns at end of stream: a line without its terminator is truncated
         _ if !buf.ends_with('\n') => Err(err_msg("EOF")),
         _ => Ok(buf),
